@@ -82,11 +82,15 @@ Supers(c, e) ==
     [] c.inh = "fan"     -> IF e \in {"e2", "e3"} THEN <<"e1">> ELSE <<>>
     \* two separate trees joined at the bottom: e2 below e1, e3 below r2, e4 below both; h refers to both roots
     [] c.inh = "tworoots" -> IF e = "e2" THEN <<"e1">> ELSE IF e = "e3" THEN <<"r2">> ELSE IF e = "e4" THEN <<"e2", "e3">> ELSE <<>>
+    \* nested multiple inheritance: the two supertypes of e4 are equally deep, the one declared second has more ancestors
+    [] c.inh = "nestedmi" -> IF e = "e2" THEN <<"e1">> ELSE IF e = "e3" THEN <<"r2", "r3">> ELSE IF e = "e4" THEN <<"e2", "e3">>
+                             ELSE IF e = "e5" THEN <<"e4">> ELSE <<>>
 RootExpr(c) ==
-  IF c.sx = "none" \/ c.inh \in {"none", "chain", "tworoots"} THEN NoTree
+  IF c.sx = "none" \/ c.inh \in {"none", "chain", "tworoots", "nestedmi"} THEN NoTree
   ELSE Op(c.sx, <<Leaf("e2"), Leaf("e3")>>)
 Names(c) == IF c.inh = "multi" THEN <<"e1", "e2", "e3", "e4">>
-            ELSE IF c.inh = "tworoots" THEN <<"e1", "e2", "r2", "e3", "e4", "h">> ELSE <<"e1", "e2", "e3">>
+            ELSE IF c.inh = "tworoots" THEN <<"e1", "e2", "r2", "e3", "e4", "h">>
+            ELSE IF c.inh = "nestedmi" THEN <<"e1", "e2", "r2", "r3", "e3", "e4", "e5", "h">> ELSE <<"e1", "e2", "e3">>
 WithRules(c, e) ==
   IF ~c.rules THEN e
   ELSE IF e.name = "e1" THEN [e EXCEPT !.derive = <<[name |-> "d1", ty |-> T("INTEGER"), expr |-> "a1 + f1(a1)"]>>,
@@ -104,6 +108,8 @@ Valid0(c) ==
                    ELSE IF n = "e2" THEN <<A("b1", T("e1"), FALSE), A("b2", T("STRING"), TRUE)>>
                    ELSE IF n = "e3" THEN <<A("c1", T("BOOLEAN"), FALSE)>> \o ExtraAttrs(c.ts)
                    ELSE IF n = "r2" THEN <<A("q1", T("INTEGER"), FALSE)>>
+                   ELSE IF n = "r3" THEN <<A("p1", T("STRING"), TRUE)>>
+                   ELSE IF n = "e5" THEN <<A("z1", T("INTEGER"), TRUE)>>
                    ELSE IF n = "h" THEN <<A("h1", T("e1"), FALSE), A("h2", T("r2"), FALSE), A("h3", Agg("LIST", 0, -1, "e1"), FALSE),
                                           A("h4", Agg("LIST", 0, -1, "r2"), TRUE)>>
                    ELSE <<A("g1", T("REAL"), TRUE)>>))],
@@ -140,7 +146,7 @@ Rename(nm, s) ==
 Valid(c) == IF "nm" \in DOMAIN c THEN Rename(c.nm, Valid0(c)) ELSE Valid0(c)
 Choices(deep) ==
   {[inh |-> i, sx |-> s, abs |-> a, ak |-> k, rules |-> r, aux |-> x, ts |-> [k |-> "base"]] :
-     i \in (IF deep THEN {"none", "chain", "multi", "fan", "tworoots"} ELSE {"chain", "multi", "tworoots"}),
+     i \in (IF deep THEN {"none", "chain", "multi", "fan", "tworoots", "nestedmi"} ELSE {"chain", "multi", "tworoots", "nestedmi"}),
      s \in (IF deep THEN {"none", "oneof", "andor"} ELSE {"none", "oneof"}),
      a \in (IF deep THEN BOOLEAN ELSE {FALSE}), k \in (IF deep THEN 1..3 ELSE {2, 3}), r \in BOOLEAN,
      x \in BOOLEAN}
@@ -171,6 +177,9 @@ Mutants(c) ==
   \cup {M("dup_entity", at, Names(c)[at], "DUPLICATE_DECL") : at \in 1..2}
   \cup {M("dup_attr", 1, "a1", "DUPLICATE_DECL"), M("dup_type_entity", 1, "e1", "DUPLICATE_DECL")}
   \cup (IF c.inh # "none" THEN {M("subtype_cycle", 1, "", "SUBSUPER_LOOP"), M("inherited_redeclared", 2, "a1", "OVERLOADED_ATTR")} ELSE {})
+  \* a supertype that names, in its SUPERTYPE OF expression, an entity which inherits it only through an intermediate
+  \* subtype (the named entity does not list it, although it is an ancestor)
+  \cup (IF c.inh = "chain" THEN {[M("subtype_not_listing", 1, "", "MISSING_SUPERTYPE") EXCEPT !.pos = "indirect"]} ELSE {})
   \cup {M("select_cycle", 0, "", "SELECT_LOOP")}
   \* the same cycle with entity members, and an expression that has to look through the cyclic select (attribute  \*
   \* access and group qualification on a value of that type), entity member before or after the select member
